@@ -2,69 +2,108 @@
 fn convert_to_binary_once<const B: Word>(&self, repr: Repr<B>) -> Rounded<Repr<2>>
 /*@
     requires
-        // finite operand, precision > 0 (the `debug_assert!`; both callers establish it), operand in normal form,
-        // resource limits, and -- KNOWN FINDING -- the region where the assumed contract of convert_base holds
-        // (B a power of two, or |exponent| <= 38: lib/fp_spec.rs fp_cb_region)
+        // finite operand, precision > 0 (the `debug_assert!`; both callers establish it), operand in normal form (Repr
+        // invariant), resource limits (lib/fp_spec.rs fp_src_ok)
         fp_once_pre::<B>(self.precision, repr),
     ensures
         // C06: the exact value repr.significand * B^repr.exponent rounded ONCE to `precision` bits under the mode of the
         // context (lib/fp_spec.rs bin_once: mode-correct neighbour at the unit in the last place of the exact value,
-        // Exact iff equal, flag = rounded - truncated), result in normal form (hence at most `precision` bits)
+        // Exact iff equal, flag = rounded - truncated) -- or, for |value| > 2^4096 resp. < 2^-4096 when the f32 log2
+        // estimate says so, the stand-in +-2^4096 resp. +-2^-4096 (fp_far); result finite, in normal form, at most
+        // `precision` bits
         fp_once_post::<B>(R::md(), self.precision, repr, ret),
 @*/
 {
-        /*@ broadcast use round_int_axioms, ax_ndigits, ax_blen; @*/
+        /*@ broadcast use round_int_axioms, ax_ndigits, ax_blen, fp_ubig_one; @*/
         /*@ let ghost (sig, e) = (repr.significand.v(), repr.exponent as int);
             let ghost N = fx_num(B as int, sig, e);
             let ghost D = fx_den(B as int, e);
             let ghost p = self.precision;
-            proof { lemma_fp_den_pos(B as int, e); } @*/
+            let ghost W: nat = 0x40_0000_0000_0000;
+            let ghost ea: nat = (if e >= 0 { e } else { -e }) as nat;
+            proof {
+                lemma_fp_den_pos(B as int, e);
+                lemma_ipow_pos(2, p as nat);
+                lemma_fp_ipow01(2);
+            } @*/
         debug_assert!(self.precision > 0 && repr.is_finite());
-        let wide_precision = self.precision + 2;
-        let wide: Rounded<Repr<2>> = Context::<Zero>::new(wide_precision).convert_base(repr);
-        let sticky = matches!(wide, Inexact(_, _));
-        /*@ let ghost wide0 = wide; @*/
-        let Repr {
-            mut significand,
-            mut exponent,
-        } = wide.value();
-        /*@ let ghost (ws, we) = (significand.v(), exponent as int);
-            let ghost mut padg: nat = 0;
-            proof {
-                lemma_fp_blen_nd(ws);
-                if sticky { lemma_fp_trunc_nonzero(p + 2, N, D, ws, we); }
-            } @*/
-        if sticky {
-            // put the sticky bit below the position where the conversion was truncated
-            let pad = wide_precision.saturating_sub(significand.bit_len()) + 1;
-            let sign = significand.sign();
-            significand <<= pad;
-            significand += sign * IBig::ONE;
-            exponent -= pad as isize;
+        if repr.significand.is_zero() {
             /*@ proof {
-                padg = pad as nat;
-                lemma_fp_sticky_shape(ws, pad as nat, significand.v());
+                assert(N == 0) by (nonlinear_arith) requires N == (if e >= 0 { sig * ipow(B as int, e as nat) } else { sig }), sig == 0;
             } @*/
+            return Exact(Repr::zero());
         }
-        /*@ let ghost (S, e2) = (significand.v(), exponent as int);
+
+        // numbers far outside of the range of f32 and f64 don't need the digits (and the power could be huge)
+        const FAR: isize = 4096;
+        let (log2_lb, log2_ub) = repr.log2_bounds();
+        let (sign, magnitude) = repr.significand.into_parts();
+        /*@ let ghost pw = ipow(B as int, ea);
             proof {
-                // `Repr::new` returns (S, e2) itself: S is odd (sticky) or already in normal form (exact conversion)
-                assert forall|s1: int, e1: int| #[trigger] same_value(2, s1, e1, S, e2) && fp_normal(2, s1) && (S == 0 ==> s1 == 0 && e1 == 0)
-                    implies s1 == S && e1 == e2 by {
-                    if S != 0 {
-                        if s1 == 0 { lemma_fp_same_zero(s1, e1, S, e2); }
-                        lemma_fp_odd_norm(s1, e1, S, e2);
-                    }
-                }
-                assert(exp_room(e2, ndigits(2, S) as int));
+                // |N| = |sig| * B^max(e, 0), D = B^max(-e, 0): numerator and denominator of the code
+                lemma_fp_pow_bits(B as int, ea, W);
+                lemma_fp_abs_mul(sig, pw);
+                assert(iabs(N) >= 1) by (nonlinear_arith) requires iabs(N) == (if e >= 0 { iabs(sig) * pw } else { iabs(sig) }), iabs(sig) >= 1, pw >= 1;
             } @*/
-        self.repr_round(Repr::new(significand, exponent))
+        if log2_lb > FAR as f32 || log2_ub < -FAR as f32 {
+            /*@ proof { lemma_fp_far(log2_lb, log2_ub, iabs(N), D); } @*/
+            let exponent = if log2_lb > 0. { FAR } else { -FAR };
+            let significand = sign * IBig::ONE;
+            /*@ proof {
+                assert(fp_far(N, D, Mid { s: significand.v(), e: exponent as int, adj: Some(Rounding::NoOp) }));
+                lemma_fp_blen_le(significand.v(), p as nat);
+            } @*/
+            return Inexact(Repr { significand, exponent }, Rounding::NoOp);
+        }
+
+        // |value| = num / den
+        let (mut num, den) = if repr.exponent >= 0 {
+            let pow = UBig::from_word(B).pow(repr.exponent as usize);
+            (magnitude * pow, UBig::ONE)
+        } else {
+            let pow = UBig::from_word(B).pow((-repr.exponent) as usize);
+            (magnitude, pow)
+        };
+        /*@ let ghost num0 = num.v();
+            proof {
+                assert(num0 == iabs(N) && den.v() == D);
+                // resource bounds: den <= 2^W, num < 2^(2W)
+                lemma_fp_blen_bound(sig);
+                lemma_ipow_le(2, blen(sig), W);
+                lemma_ipow_add(2, W, W);
+                let (as_, hw) = (iabs(sig), ipow(2, W));
+                assert(as_ * pw < hw * hw) by (nonlinear_arith) requires as_ < hw, 1 <= pw <= hw, as_ >= 0;
+                lemma_fp_ipow2_succ(W);
+                lemma_fp_blen_le(D, W + 1);
+            } @*/
+
+        // the quotient gets at least two bits more than the precision
+        let shift = (self.precision + 2 + den.bit_len()).saturating_sub(num.bit_len());
+        num <<= shift;
+        let (q, r) = num.div_rem(&den);
         /*@ proof {
-            assert(round_once(R::md(), 2, p, S, e2, ret));
-            if sticky {
-                lemma_fp_once_sticky(R::md(), p, N, D, ws, we, padg, S, ret);
-            } else {
-                lemma_fp_once_of_round(R::md(), p, S, e2, N, D, ret);
-            }
+            lemma_fp_quot_bits(num0, D, shift as nat, p as nat, q.v(), r.v());
         } @*/
+        let sticky = !r.is_zero();
+        let significand = sign * IBig::from((q << 1) + UBig::from(sticky as u8));
+        /*@ let ghost (S, e2) = (significand.v(), -(shift as int) - 1);
+            proof {
+                lemma_fp_ipow01(2);
+                assert(q.v() * 2 == 2 * q.v());
+                lemma_fp_near_room(num0, D, shift as nat, W + W, q.v(), r.v(), S);
+                assert(S != 0);
+                // whatever normalised representation `Repr::new` returns: room for repr_round, and the result is the contract
+                assert forall|s1: int, e1: int| #[trigger] same_value(2, s1, e1, S, e2) && fp_normal(2, s1) && (S == 0 ==> s1 == 0 && e1 == 0)
+                    implies s1 != 0 && e1 >= e2 && ndigits(2, s1) + e1 == ndigits(2, S) + e2 by {
+                    if s1 == 0 { lemma_fp_same_zero(s1, e1, S, e2); }
+                    lemma_fp_norm_room(s1, e1, S, e2);
+                }
+                assert forall|s1: int, e1: int, rr: Rounded<Repr<2>>| same_value(2, s1, e1, S, e2) && fp_normal(2, s1)
+                        && #[trigger] round_once(R::md(), 2, p, s1, e1, rr) && fp_inexact_normal(2, rr)
+                    implies fp_once_post::<B>(R::md(), p, repr, rr) by {
+                    lemma_fp_once_near(R::md(), p, N, D, shift as nat, q.v(), r.v(), S, s1, e1, rr);
+                    lemma_fp_once_digits(R::md(), p as nat, N, D, mid_of(rr));
+                }
+            } @*/
+        self.repr_round(Repr::new(significand, -(shift as isize) - 1))
     }
